@@ -131,6 +131,10 @@ def _child(case, seed, root):
 
     other_buckets = [dict(case["buckets"][0], id="other-profile-bucket")] if case["buckets"] else \
         [{"id": "other-profile-bucket", "type": "t", "client": "c", "hostname": "h", "name": None, "data": None, "n": 2, "delete": [], "dups": False}]
+    if case["buckets"] and case.get("both", True) and seed % 2 == 0:
+        # the other profile's legacy store also has buckets with the SAME ids, created in another order (other row ids) and with
+        # fewer events: nothing learnt about one store may be applied to the other
+        other_buckets = other_buckets + [dict(b, n=min(b["n"], 3), delete=[], dups=False) for b in reversed(case["buckets"])]
     legacy = {}      # profile (testing flag) -> (dump, path)
     if case["has_legacy"]:
         legacy[case["profile"]] = build_forked(case["profile"], case["buckets"])
